@@ -444,6 +444,8 @@ func (ex *Exec) evalIdent(env *SpecEnv, name string) Val {
 		return ex.rangeSeen(env)
 	case "$range":
 		return ex.rangeSlice(env)
+	case "$n":
+		return ex.rangeCount(env)
 	}
 	if c, ok := ex.localByName(env, name); ok {
 		return env.st.cells[c]
@@ -537,6 +539,26 @@ func (ex *Exec) rangeSlice(env *SpecEnv) Val {
 		}
 	}
 	sfail("$range: loop is not a range over a slice")
+	return Val{}
+}
+
+func (ex *Exec) rangeCount(env *SpecEnv) Val {
+	if env.frame == nil || env.loopHdr == nil {
+		sfail("$n outside a loop clause")
+	}
+	for _, ins := range env.loopHdr.Instrs {
+		if n, ok := ins.(*ssa.Next); ok {
+			if rg, ok := n.Iter.(*ssa.Range); ok {
+				if it := env.frame.ranges[rg]; it != nil && it.count != nil {
+					if v, ok := env.st.cells[it.count]; ok {
+						return Val{T: types.Typ[types.Int], L: v.L}
+					}
+					return Val{T: types.Typ[types.Int], L: []*Term{Int(0)}}
+				}
+			}
+		}
+	}
+	sfail("$n: loop is not a range over a map")
 	return Val{}
 }
 
